@@ -253,6 +253,8 @@ var handLinkDocs = []string{
 	`query B($u: Int) { ...G } fragment G on Query { a { ...F } } fragment F on A @fd(x: $u) { x }`,
 	// variables used by directives on the operation itself and on its variable definitions
 	`query Q($v: Int, $b: Boolean!) @opd(x: $v, b: $b) { f(i: $v, nn: 1) s @include(if: $b) }`, `mutation M($b: Boolean!) @opd(b: $b) { m @skip(if: $b) }`,
+	// a literal for an input type with more fields than it gives, and the reverse
+	`query($v: Int) { wide(w: {f0: $v, f9: 2, f4: 3, f10: [$v, 1], f11: {r: 1, b: [$v]}}) }`, `{ wide(w: {f0: 1, f1: 1, f2: 1, f3: 1, f4: 1, f5: 1, f6: 1, f7: 1, f8: 1, f9: 1, f10: [1], f11: {r: 1}}, a0: 1, a1: 2, a2: 3) }`,
 	// variables where no type guides the walk: inside lists and objects given to a custom scalar
 	`query($v: Int, $w: String) { f(i: $v, nn: 1) e1: any(x: [$v]) e2: any(x: {ids: [$v, [$w]]}) e3: any(x: [[$v], {k: $w}]) e4: any(x: $w) }`,
 	`query($v: Int) { f(i: $v, nn: 1) ...F } fragment F on Query { any(x: [1, [$v]]) }`,
